@@ -280,7 +280,7 @@ def gen_wronglen(tier):
 UNIT_FUNCS = ["rot2", "trot2", "rotx", "roty", "rotz", "trotx", "troty", "trotz", "rpy2r", "rpy2tr", "eul2r", "eul2tr", "angvec2r", "angvec2tr",
               "xyt2tr", "SO2", "SE2", "SO3.Rx", "SO3.Ry", "SO3.Rz", "SE3.Rx", "SE3.Ry", "SE3.Rz", "SO3.RPY", "SE3.RPY", "SO3.Eul", "SE3.Eul",
               "SO3.AngVec", "SE3.AngVec", "UQ.Rx", "UQ.Ry", "UQ.Rz", "UQ.RPY", "UQ.Eul", "UQ.AngVec", "Twist3.Rx", "Twist3.Ry", "Twist3.Rz",
-              "Twist3.exp", "Twist2.exp", "Twist3.exp/vector", "Twist3.exp/array", "Twist2.exp/vector", "SE2(theta)", "SE2([x,y,theta])", "SO2(list)",
+              "Twist3.exp", "Twist2.exp", "Twist3.exp/vector", "Twist3.exp/array", "Twist2.exp/vector", "Twist3[M].exp/vector", "SO2.Rand", "SE2(theta)", "SE2([x,y,theta])", "SO2(list)",
               "SO3.Rx/vector", "SE3.Rz/vector", "UQ.Ry/vector", "Twist3.Rz/vector", "getunit", "getunit/list",
               "tr2rpy", "tr2eul", "tr2angvec", "tr2xyt", "SO3.rpy", "SO3.eul", "SO3.angvec", "SE3.rpy", "UQ.rpy", "UQ.eul", "UQ.angvec", "SO2.theta",
               "SO3[M].rpy", "SO3[M].eul", "SE3[M].rpy", "SE3[M].eul", "UQ[M].rpy", "UQ[M].eul", "SO2[M].theta"]
@@ -543,6 +543,10 @@ def _unit_call(name, a, axis, order, unit):
         "Twist3.exp/vector": lambda: np.stack([np.asarray(x) for x in L.Twist3.Revolute([1, 0.5, 0.2], [1, 2, 3]).exp(list(k3), unit).data]),
         "Twist3.exp/array": lambda: np.stack([np.asarray(x) for x in L.Twist3.Revolute([1, 0.5, 0.2], [1, 2, 3]).exp(np.array(k3), units=unit).data]),
         "Twist2.exp/vector": lambda: np.stack([np.asarray(x) for x in L.Twist2.Revolute([1, 2]).exp(list(k3), unit).data]),
+        # N twists with N angles (one per twist), and a random constructor re-seeded before the call
+        "Twist3[M].exp/vector": lambda: np.stack([np.asarray(x) for x in L.Twist3([L.Twist3.Revolute([1, 0.5, 0.2], [1, 2, 3]), L.Twist3.Revolute([0, 0, 1], [1, 0, 0]),
+                                                                                      L.Twist3.Revolute([1, 0, 0], [0, 1, 0])]).exp(list(k3), unit).data]),
+        "SO2.Rand": lambda: (np.random.seed(12345), np.stack([np.asarray(x) for x in L.SO2.Rand(arange=(min(a[0], a[1]) - 0.01 * (1 if unit == "rad" else 180 / PI), max(a[0], a[1])), unit=unit, N=3).data]))[1],
         "SE2(theta)": lambda: L.SE2(a[0], unit=unit).A, "SE2([x,y,theta])": lambda: L.SE2([1.0, 2.0, a[0]], unit=unit).A,
         "SO2(list)": lambda: np.stack([np.asarray(x) for x in L.SO2(list(k3), unit=unit).data]),
         "SO3.Rx/vector": lambda: np.stack([np.asarray(x) for x in L.SO3.Rx(list(k3), unit).data]),
